@@ -129,3 +129,33 @@ func VP_C13_AnyBytes() {
 	vpAssert(p == !all, "DNATo2Bit panics iff some byte is outside aAcCgGtT")
 	vpReach("end")
 }
+
+// VP_C13_AfterPanic: a call that panicked on an invalid base (recovered by the
+// caller) leaves nothing behind: the next call on valid DNA packs as usual.
+func VP_C13_AfterPanic() {
+	nb, ng := vpCase("bad"), vpCase("good")
+	bad := vpBytes("bad", nb)
+	p := vpPanics(func() { DNATo2Bit(nil, bad) })
+	good := vpBytes("good", ng)
+	for _, b := range good {
+		vpAssume(vpIsACGT(b))
+	}
+	var got []byte
+	p2 := vpPanics(func() { got = DNATo2Bit(nil, good) })
+	vpAssert(!p2, "valid DNA packs without a panic, also after a rejected input")
+	nbytes := (ng + 3) / 4
+	ok := !p2 && len(got) == nbytes
+	for j := 0; ok && j < nbytes; j++ {
+		var w byte
+		for q := 0; q < 4; q++ {
+			w <<= 2
+			if 4*j+q < ng {
+				w |= vpCode(good[4*j+q])
+			}
+		}
+		ok = ok && got[j] == w
+	}
+	vpAssert(ok, "the packed bytes do not depend on an earlier, rejected input")
+	vpObserveBool("first-panicked", p)
+	vpReach("end")
+}
